@@ -81,7 +81,7 @@ func (c *Ctx) rulesC01x(a *coreAnchors, la *LockAnalysis) {
 		if mutates[f] || !(readsA[f] && readsC[f]) {
 			continue
 		}
-		if _, ex := lockExemptFuncs[funcKey(f)]; ex {
+		if c.lockExempt(f) {
 			continue
 		}
 		// observation points
@@ -193,7 +193,7 @@ func (c *Ctx) inPlaceAliasLint(rule string, fld *types.Var, pkgs []string, floor
 		if len(readsOfFieldIn(f, fld)) == 0 {
 			continue
 		}
-		if _, ex := lockExemptFuncs[funcKey(topFunc(f))]; ex {
+		if c.lockExempt(f) {
 			continue
 		}
 		nfn++
